@@ -238,6 +238,26 @@ def run(pid, tier, seed, res, only=None):
                 res.hit("C19", "monitor", "composed DAG (inputs %s, outputs %s) returned %r; the original pipeline with these nodes overridden computes %r" % (in_ids, out_ids, st[1], ref[1]), dict(base, kind="monitor"))
         elif st[0] == "raise" and ref[0] == "ok":
             res.hit("C19", "monitor", "composed DAG (inputs %s, outputs %s) raised %s: %s; the original pipeline with these nodes overridden computes %r" % (in_ids, out_ids, type(st[1]).__name__, str(st[1])[:120], ref[1]), dict(base, kind="monitor"))
+        # ---- the composed DAG called inside another DAG's describing function behaves as the composed DAG (C20)
+        if st[0] == "ok" and (pi % 3 == 0):
+            import inspect as _inspect
+
+            def mk_outer(cd_, k_):
+                def outer(*xs):
+                    return cd_(*xs)
+                outer.__qualname__ = "outer_of_cmp"
+                outer.__name__ = "outer_of_cmp"
+                outer.__signature__ = _inspect.Signature([_inspect.Parameter("x%d" % j_, _inspect.Parameter.POSITIONAL_OR_KEYWORD) for j_ in range(k_)])
+                return outer
+            try:
+                od = tawazi.dag(mk_outer(cd, len(vals)))
+                sto = tz.run_controlled(lambda: od(*vals), tz.Ctl(free_run=True))
+            except BaseException as e_:  # noqa: BLE001
+                sto = ("build-raise", e_)
+            if sto[0] != "ok" or not same(sto[1], st[1]):
+                for p_ in ("C20", "C19"):
+                    res.hit(p_, "monitor", "the composed DAG (inputs %s, outputs %s) returns %r; called inside another DAG's describing function: %r" % (in_ids, out_ids, st[1], sto), dict(base, kind="monitor", variant="nested-composed"))
+            dist["nested_composed"] += 1
         # ---- the original is unchanged by composing and by running the composed DAG
         ctl1 = tz.Ctl(free_run=True)
         after = tz.run_controlled(lambda: d(*args), ctl1)
